@@ -275,3 +275,45 @@ pub fn uncovered_area(base: &[P], others: &[Vec<P>]) -> f64 {
     rec(&cand, 0, base, 0, &mut covered);
     (shoelace(base) - covered).max(0.0)
 }
+
+/// the input class of the known geo-0.27 defect: two boxes with a near-coincident edge pair
+pub fn has_near_coincident_edges(polys: &[Vec<P>]) -> bool {
+    for i in 0..polys.len() {
+        for j in i + 1..polys.len() {
+            let (p, q) = (&polys[i], &polys[j]);
+            let side = |x: &Vec<P>| {
+                let a = ((x[1].0 - x[0].0).powi(2) + (x[1].1 - x[0].1).powi(2)).sqrt();
+                let b = ((x[2].0 - x[1].0).powi(2) + (x[2].1 - x[1].1).powi(2)).sqrt();
+                a.min(b)
+            };
+            let small = side(p).min(side(q));
+            for a in 0..4 {
+                let (a0, a1) = (p[a], p[(a + 1) % 4]);
+                let da = (a1.0 - a0.0, a1.1 - a0.1);
+                let la = (da.0 * da.0 + da.1 * da.1).sqrt();
+                for b in 0..4 {
+                    let (b0, b1) = (q[b], q[(b + 1) % 4]);
+                    let db = (b1.0 - b0.0, b1.1 - b0.1);
+                    let lb = (db.0 * db.0 + db.1 * db.1).sqrt();
+                    let sin = ((da.0 * db.1 - da.1 * db.0) / (la * lb)).abs();
+                    if sin >= 0.03 {
+                        continue;
+                    }
+                    // distance of b's end points from a's line
+                    let dist = |pt: P| ((pt.0 - a0.0) * da.1 - (pt.1 - a0.1) * da.0).abs() / la;
+                    if dist(b0).max(dist(b1)) >= 0.05 * small {
+                        continue;
+                    }
+                    // overlapping extent along a
+                    let t = |pt: P| ((pt.0 - a0.0) * da.0 + (pt.1 - a0.1) * da.1) / (la * la);
+                    let (t0, t1) = (t(b0).min(t(b1)), t(b0).max(t(b1)));
+                    if t1 > 0.0 && t0 < 1.0 {
+                        return true;
+                    }
+                }
+            }
+        }
+    }
+    false
+}
+
